@@ -19,7 +19,7 @@ import sys
 import time
 
 
-def run(tier='quick', seed=0):
+def run(tier='quick', seed=0, on_accept=None):
     t0 = time.time()
     REPO = os.environ.get('HOLPY_REPO', '/repo')
     if REPO not in sys.path:
@@ -30,12 +30,12 @@ def run(tier='quick', seed=0):
     cwd = os.getcwd()
     os.chdir(REPO)
     try:
-        return _run(tier, seed, t0)
+        return _run(tier, seed, t0, on_accept)
     finally:
         os.chdir(cwd)
 
 
-def _run(tier, seed, t0):
+def _run(tier, seed, t0, on_accept=None):
     import z3
     from logic import basic
     import smt.veriT.verit_macro as vm
@@ -164,6 +164,8 @@ def _run(tier, seed, t0):
             return False
         accepted += 1
         stats[name] = stats.get(name, 0) + 1
+        if on_accept is not None:
+            on_accept(name, args, prevs, th, family)
         distinct.add((name, repr(args)[:400], repr([pv.prop for pv in prevs])[:300]))
         prem_props = [pv.prop for pv in prevs]
         allowed_hyps = set(h for pv in prevs for h in pv.hyps)
@@ -172,6 +174,9 @@ def _run(tier, seed, t0):
                                'what': 'conclusion has hypotheses %s, premises have %s' % (
                                    [str(h) for h in th.hyps], [str(h) for h in allowed_hyps]),
                                'premises': [str(t) for t in prem_props], 'conclusion': str(th.prop)})
+        # only premises whose hypotheses the conclusion carries may have been used: a conclusion with fewer
+        # hypotheses must follow from the remaining premises alone (a tautology rule may ignore its premises)
+        prem_props = [pv.prop for pv in prevs if set(pv.hyps) <= set(th.hyps)]
         ok, model = follows(prem_props, th.prop)
         if ok is False:
             violations.append({'function': name, 'clause': 'consequence', 'family': family,
@@ -196,8 +201,11 @@ def _run(tier, seed, t0):
         t = rng.choice(atoms)
         return Not(t) if rng.random() < 0.3 else t
 
-    def principal():
-        k = rng.random()
+    shape_cycle = [0.1, 0.2, 0.35, 0.5, 0.6, 0.7, 0.8, 0.9, 0.97]      # one value inside every branch below
+
+    def principal(k=None):
+        if k is None:
+            k = rng.random()
         l1, l2, l3 = lit(), lit(), lit()
         if k < 0.15:
             return And(l1, l2), [l1, l2]
@@ -218,9 +226,9 @@ def _run(tier, seed, t0):
         return Not(Not(l1)), [l1]
 
     kmax = 2 if tier == 'quick' else 3
-    n_phi = 14 if tier == 'quick' else 60
+    n_phi = 27 if tier == 'quick' else 108
     for it in range(n_phi):
-        phi, comps = principal()
+        phi, comps = principal(shape_cycle[it % len(shape_cycle)])       # every shape, several literal draws
         lits = []
         for t in comps + [phi]:
             for u in (t, Not(t)):
@@ -237,6 +245,52 @@ def _run(tier, seed, t0):
             for name in rules:
                 for cl in cands:
                     try_rule(name, tuple(cl), list(prem), 'generic')
+
+    # ------------------------------------------------------------ rewrite-style rules: one equation lhs = rhs
+    T_, F_ = K.true, K.false
+    i0, i1, i2, i3 = Int(0), Int(1), Int(2), Int(3)
+    bool_lhs = [And(p, T_), And(T_, p, q), And(p, F_, q), And(p, p, q), And(p, Not(p)), And(p, q, Not(p)), And(p, q),
+                Or(p, F_), Or(F_, p, q), Or(p, T_), Or(p, p, q), Or(p, Not(p)), Or(p, q, Not(q)), Or(p, q),
+                Not(Not(p)), Not(T_), Not(F_), Not(p), Not(Implies(p, q)), Not(Or(p, q)), Not(And(p, q)),
+                Implies(p, Implies(q, r)), Implies(Implies(p, q), q), And(p, Implies(p, q)),
+                Implies(F_, p), Implies(p, T_), Implies(T_, p), Implies(p, F_), Implies(p, p), Implies(Not(p), p),
+                Implies(p, Not(p)), Implies(Not(p), Not(q)), Implies(p, q),
+                Eq(p, p), Eq(p, Not(p)), Eq(Not(p), p), Eq(T_, p), Eq(p, T_), Eq(F_, p), Eq(p, F_), Eq(Not(p), Not(q)),
+                Eq(p, q), Eq(a, a), Eq(a, b), Eq(i1, i1), Eq(i1, i2), Not(Eq(a, a)), Not(Eq(a, b)), Not(Eq(i1, i2)),
+                Not(Eq(i1, i1)),
+                logic.mk_if(T_, p, q), logic.mk_if(F_, p, q), logic.mk_if(p, q, q), logic.mk_if(Not(p), q, r),
+                logic.mk_if(p, T_, F_), logic.mk_if(p, F_, T_), logic.mk_if(p, T_, q), logic.mk_if(p, q, F_),
+                logic.mk_if(p, F_, q), logic.mk_if(p, q, T_), logic.mk_if(p, logic.mk_if(p, q, r), r),
+                logic.mk_if(p, q, logic.mk_if(p, q, r)), logic.mk_xor(p, q),
+                K.less(IntType)(i1, i2), K.less(IntType)(i2, i1), K.less(IntType)(x, x), K.less_eq(IntType)(i1, i2),
+                K.less_eq(IntType)(i2, i1), K.less_eq(IntType)(x, x), K.greater_eq(IntType)(x, y),
+                K.greater(IntType)(x, y), K.less(IntType)(x, y), K.less_eq(IntType)(x, y),
+                K.greater_eq(IntType)(i2, i1), K.greater(IntType)(i1, i2)]
+    bool_rhs = [T_, F_, p, q, r, Not(p), Not(q), And(p, q), Or(p, q), And(q, p), And(p, Not(q)), And(Not(p), Not(q)),
+                Or(Not(p), Not(q)), Or(Not(p), q), Or(p, Not(q)), Implies(p, q), Implies(q, p), Eq(p, q), Not(Eq(p, q)),
+                And(p, q, r), Implies(And(p, q), r), Or(p, q, r), Implies(p, r), Or(Not(p), r), And(Not(p), r),
+                Or(p, r), And(p, r), logic.mk_if(p, q, r), logic.mk_if(p, r, q), Eq(a, b), Not(Eq(a, b)),
+                K.less_eq(IntType)(y, x), K.less(IntType)(y, x), Not(K.less_eq(IntType)(x, y)),
+                Not(K.less_eq(IntType)(y, x)), Not(K.less(IntType)(y, x)), Not(K.less(IntType)(x, y)),
+                K.less_eq(IntType)(x, y), And(K.less_eq(IntType)(x, y), Not(Eq(x, y))), Eq(x, y)]
+    pl, mi, ti, um = K.plus(IntType), K.minus(IntType), K.times(IntType), K.uminus(IntType)
+    int_lhs = [pl(x, i0), pl(i0, x), pl(i1, i2), pl(pl(x, i1), i2), pl(pl(i1, x), i2), mi(x, x), mi(x, i0), mi(i0, x),
+               mi(i3, i1), mi(x, y), ti(x, i0), ti(i0, x), ti(x, i1), ti(i1, x), ti(i2, i3), ti(ti(i2, x), i3),
+               um(um(x)), um(i1), um(i0), um(x), logic.mk_if(T_, x, y), logic.mk_if(F_, x, y), logic.mk_if(p, x, x),
+               logic.mk_if(Not(p), x, y)]
+    int_rhs = [x, y, i0, i1, i2, i3, Int(5), Int(6), Int(-1), um(x), pl(x, i3), pl(i3, x), ti(Int(6), x), ti(x, Int(6)),
+               pl(x, um(y)), mi(y, x), logic.mk_if(p, y, x), logic.mk_if(p, x, y)]
+    eq_rules = [n for n in rules if n.endswith('_simplify') or n in (
+        'verit_ac_simp', 'verit_connective_def', 'verit_distinct_elim', 'verit_la_rw_eq', 'verit_bfun_elim',
+        'verit_ite_intro', 'verit_eq_reflexive')]
+    pairs = [(l, r_) for l in bool_lhs for r_ in bool_rhs + [l]] + [(l, r_) for l in int_lhs for r_ in int_rhs + [l]]
+    if tier == 'quick':
+        pairs = rng.sample(pairs, 1200)
+    for l, r_ in pairs:
+        for name in eq_rules:
+            try_rule(name, (Eq(l, r_),), [], 'rewrite')
+            if rng.random() < 0.1:
+                try_rule(name, (Eq(r_, l),), [], 'rewrite')
 
     # ------------------------------------------------------------ resolution
     def resolvent(cls, drop=None):
@@ -391,7 +445,7 @@ def _run(tier, seed, t0):
     return {'name': 'c18_verit',
             'rule': '%d principal formulas x %d rules x premises {none, phi, ~phi} x all clauses of <= %d literals over the '
                     'components of phi (generic near-miss enumeration); %d resolution chains with 7 conclusion variants and '
-                    'perturbed clause sizes; %d equality chains / congruences; %d Farkas cycles with 6 variants; oracle z3 '
+                    'perturbed clause sizes; rewrite-style rules on a pool of ~90 left sides x ~40 candidate right sides; %d equality chains / congruences; %d Farkas cycles with 6 variants; oracle z3 '
                     '(3 s) on an own encoding; non-trivial = distinct accepted (rule, arguments, premises)' % (
                         n_phi, len(rules), kmax, n_res, n_eq, n_la),
             'evaluations': evals, 'accepted': accepted, 'distinct_nontrivial': len(distinct),
